@@ -21,7 +21,7 @@ import vlib
 
 THEOREMS = ["Yardl.C19.common_symm", "Yardl.C19.common_idem", "Yardl.C19.binop_type_symm",
             "Yardl.C19.small_ints_promote", "Yardl.C19.pow_never_integer", "Yardl.C19.binop_numeric",
-            "Yardl.C19.parentheses_correct"]
+            "Yardl.C19.parentheses_correct", "Yardl.C19.fixed_width_evaluation_is_exact"]
 NUMERIC = ["int8", "int16", "int32", "int64", "uint8", "uint16", "uint32", "uint64", "size", "float32", "float64",
            "complexfloat32", "complexfloat64"]
 OPS = {"add": "+", "sub": "-", "mul": "*", "div": "/", "pow": "**"}
@@ -514,8 +514,10 @@ def _wide_operands(report, sc, ybin, lean, seed):
             for env in envs:
                 v = _exact(e, env, lo, hi)
                 if v is not None:
-                    r = lean.ask({"op": "eval", "expr": e, "env": list(env)})
-                    if r.get("value") != v:
+                    r = lean.ask({"op": "eval", "expr": e, "env": list(env), "lo": lo, "hi": hi})
+                    # the hypothesis of fixed_width_evaluation_is_exact holds for this case, and the model's fixed-width value is the exact one
+                    report.count("wide.hypothesis-in-range" if r.get("in_range") else "wide.HYPOTHESIS-FAILS")
+                    if r.get("value") != v or not r.get("in_range") or r.get("fixed_width") != v:
                         report.violation("model:eval", {"theorem_or_correspondence": "Expr.eval vs exact arithmetic", "expr": e, "env": env, "model": r, "exact": v}, "no-failing-input-found")
                     want[(n, env)] = v
         # Python
